@@ -40,7 +40,7 @@ def cases(draw, bounded=None, kinds=("gauss", "gauss", "quartic", "logreg", "ban
     cfg["r_u"] = [draw(st.floats(-2.5, 2.5)) for _ in range(cfg["d"])]
     # the mass in effect can also be one the chain estimated from its own samples (and the chain may have been re-loaded since)
     if draw(st.integers(0, 3)) == 0:
-        cfg["mass_history"] = {"advance": draw(st.integers(12, 40)), "diagonal": cfg["d"] == 1 or draw(st.booleans()), "reload": draw(st.booleans())}
+        cfg["mass_history"] = {"advance": draw(st.integers(12, 40)), "diagonal": draw(st.booleans()), "reload": draw(st.booleans())}
     return cfg
 
 
@@ -338,9 +338,9 @@ def fd_cases(draw):
     cfg = draw(cases(kinds=("gauss", "quartic", "logreg", "banana", "mix")))
     cfg["hmc"]["grad"] = False
     cfg["zero_mode"] = [draw(st.sampled_from(["generic", "generic", "zero", "tiny", "neg"])) for _ in range(cfg["d"])]
-    # "at every point": also where the density sits far from zero compared with its own width (up to 1e4 widths)
+    # "at every point": also where the density sits far from zero compared with its own width (up to 1e8 widths)
     if cfg["target"]["kind"] == "gauss" and draw(st.integers(0, 2)) == 0:
-        k = draw(st.sampled_from([1e2, 1e3, 1e4, -1e3, -1e4]))
+        k = draw(st.sampled_from([1e2, 1e3, 1e4, -1e3, -1e4, 1e6, 1e7, 1e8, -1e8]))    # (a timestamp-like parameter: 1.7e9 +- 1)
         L = np.array(cfg["target"]["chol"], dtype=float).reshape(cfg["d"], cfg["d"])
         sd = np.sqrt(np.diag(L @ L.T))
         cfg["target"]["mean"] = [float(m + k * v) for m, v in zip(cfg["target"]["mean"], sd)]
@@ -375,8 +375,10 @@ def body_finite_diff(case, ctx):
     curv = np.zeros(case["d"])
     for i in range(case["d"]):
         e = np.zeros(case["d"])
-        e[i] = 1e-6 * step[i]
-        curv[i] = abs((tgt.grad(t + e)[i] - tgt.grad(t - e)[i]) / (2e-6 * step[i]))
+        # (far from zero the probe must stay above the spacing of the numbers around t, and the distance actually probed is used)
+        e[i] = max(1e-6 * step[i], 1e3 * float(np.spacing(abs(t[i]))))
+        tp, tm = t + e, t - e
+        curv[i] = abs((tgt.grad(tp)[i] - tgt.grad(tm)[i]) / (tp[i] - tm[i]))
     # ... and the size of the gradient one conditional width (1/sqrt(curvature)) away from a stationary point
     scale = np.max(np.abs(want)) + np.maximum(curv * step, np.sqrt(curv))
     err = np.abs(g - want)
